@@ -8,6 +8,7 @@ CONSTANTS
   Coords = {"A"}
   OpKinds = {"CreateStream", "DeleteStream", "CreateGroup", "JoinGroup", "LeaveGroup"}
   Variants = {"plain"}
+  Extras = {}
   MaxOps = 6
   MaxSnaps = 1
   MaxRestarts = 1
